@@ -155,6 +155,33 @@ func (c *Ctx) expandBoolPhis(facts []DomFact, depth int) []DomFact {
 			cand = i
 			n++
 		}
+		if n > 1 {
+			// several edges can give the polarity (the true case of ||, the false case of &&): a disjunction,
+			// one alternative per edge — the operand itself for a computed edge, the branch literal that
+			// leads to a constant edge otherwise
+			var alts []DomFact
+			okAlts := true
+			for i, e := range ph.Edges {
+				if k, isC := e.(*ssa.Const); isC && k.Value != nil {
+					if constantBool(k) != pos {
+						continue
+					}
+					pr := ph.Block().Preds[i]
+					iff, isIf := pr.Instrs[len(pr.Instrs)-1].(*ssa.If)
+					if !isIf || pr.Succs[0] == pr.Succs[1] {
+						okAlts = false
+						break
+					}
+					alts = append(alts, DomFact{Cond: iff.Cond, Pos: pr.Succs[0] == ph.Block(), If: iff})
+					continue
+				}
+				alts = append(alts, DomFact{Cond: e, Pos: pos, If: f.If})
+			}
+			if okAlts && len(alts) > 1 {
+				out = append(out, DomFact{Cond: f.Cond, Pos: f.Pos, If: f.If, Alts: alts})
+			}
+			continue
+		}
 		if n != 1 {
 			continue
 		}
